@@ -162,7 +162,10 @@ def make_trace(tid, nv, tokens, logline):
         raise ValueError("log has %d steps, script %d" % (len(segs), len(ops)))
     ev = []
     for (c, a), seg in zip(ops, segs):
-        out, vs = parse_step(seg)
+        try:
+            out, vs = parse_step(seg)
+        except (IndexError, KeyError, TypeError) as e:
+            raise ValueError("malformed step %r" % seg[:80])
         if len(vs) != nv:
             raise ValueError("log shows %d variables, script has %d" % (len(vs), nv))
         ev.append({"op": model_op(c, a), "out": out, "st": vs})
@@ -416,18 +419,28 @@ def slices_part(chk, exes, gen_results, thorough, sd):
         name, es = job
         pre = "S %d " % es
         st, outl, complete = run_batch(exes[name], [pre + x for x in body])
-        pairs = []
+        pairs, garbage = [], []
         for ln in outl:
             if ln.startswith("S "):
                 p = ln.split(" ", 2)
-                pairs.append((int(p[1]), p[2] if len(p) > 2 else ""))
-        return name, es, st, complete, pairs
+                if len(p) > 1 and p[1].isdigit() and int(p[1]) < len(scripts):
+                    pairs.append((int(p[1]), p[2] if len(p) > 2 else ""))
+                    continue
+            if ln != "END":
+                garbage.append(ln)
+        return name, es, st, complete, pairs, garbage
 
     jobs = [(name, es) for name in exes for es in sizes]
     groups = {"es0": {}, "esN": {}}
     executed = 0
     with ThreadPoolExecutor(max_workers=6) as ex:
-        for name, es, st, complete, pairs in ex.map(run_one, jobs):
+        for name, es, st, complete, pairs, garbage in ex.map(run_one, jobs):
+            if garbage:
+                if name == "ref":
+                    raise C.Undecided("reference run of the interpreter printed unexpected lines: %r" % garbage[:3])
+                chk.reject("slice-log:%s" % TYPENAME[es],
+                           "%s: the compiled interpreter printed %d malformed log lines, e.g. %r" % (name, len(garbage), garbage[0][:200]),
+                           {"config": name, "elem": TYPENAME[es], "lines": [g[:500] for g in garbage[:10]]})
             if not complete:
                 if name == "ref":
                     raise C.Undecided("reference run of the interpreter ended abnormally (%s)" % st)
@@ -638,10 +651,11 @@ def slices_part(chk, exes, gen_results, thorough, sd):
         chk.reject(key, desc + " [%d rejected traces of this kind]" % len(lst), rep)
     unseen = [k for k in ("make", "lit", "r2", "r3", "app", "apps", "copy", "clear", "set", "idx", "nil", "probe", "mov")
               if not kinds_seen.get(k)]
-    if unseen or not (stats["growth_appends"] and stats["inplace_appends"] and stats["panicking_steps"] and stats["nonempty_copies"]):
+    vacuous = unseen or not (stats["growth_appends"] and stats["inplace_appends"] and stats["panicking_steps"] and stats["nonempty_copies"])
+    if vacuous and not chk.violations and not chk.known_hits:    # (a run that already has rejections is not vacuous)
         raise C.Undecided("vacuous run: operation kinds %s / outcome classes %s never occurred in an accepted trace" % (unseen, stats))
     chk.cov["slice_ops_in_accepted_traces"] = kinds_seen
-    if informative == 0:
+    if informative == 0 and not chk.violations and not chk.known_hits:
         raise C.Undecided("no informative negative control for SliceTrace (all originals were rejected)")
     chk.cov["negative_controls"] = chk.cov.get("negative_controls", 0) + informative
     chk.cov["traces_validated_against_impl"] += validated
